@@ -1492,34 +1492,39 @@ func (env *specEnv) evalLoc(x *Expr) (*LocPtr, types.Type, error) {
 				if !ok {
 					return nil, nil, fmt.Errorf("no field %s", x.Name)
 				}
-				if len(path) != 1 {
-					// promoted through embedded pointer/struct: resolve the prefix by loading
-					cur := bv
-					curT := pt.Elem()
-					for i := 0; i < len(path)-1; i++ {
-						cs := curT.Underlying().(*types.Struct)
-						f := cs.Field(path[i])
-						if pp, ok := f.Type().Underlying().(*types.Pointer); ok {
-							cur, err = env.loadPath(cur, curT, []int{path[i]}, f.Type())
-							if err != nil {
-								return nil, nil, err
-							}
-							curT = pp.Elem()
-						} else {
-							return nil, nil, fmt.Errorf("promoted field through embedded struct value not supported in modifies")
+				// promoted fields: embedded pointers are followed by loading (the location is then in that object),
+				// embedded struct values are part of the same object (the path just gets longer)
+				cur := bv
+				curT := pt.Elem()
+				var steps []pathStep
+				walkT := curT
+				for i := 0; i < len(path); i++ {
+					cs := walkT.Underlying().(*types.Struct)
+					f := cs.Field(path[i])
+					steps = append(steps, pathStep{Field: path[i]})
+					if pp, ok := f.Type().Underlying().(*types.Pointer); ok && i < len(path)-1 {
+						fieldPath := make([]int, len(steps))
+						for k, s := range steps {
+							fieldPath[k] = s.Field
 						}
+						cur, err = env.loadPath(cur, curT, fieldPath, f.Type())
+						if err != nil {
+							return nil, nil, err
+						}
+						curT = pp.Elem()
+						walkT = curT
+						steps = nil
+						continue
 					}
-					bv = cur
-					pt = types.NewPointer(curT)
-					path = path[len(path)-1:]
+					walkT = f.Type()
 				}
 				var lp *LocPtr
-				if blp, ok := bv.Ext.(*LocPtr); ok && blp != nil {
+				if blp, ok := cur.Ext.(*LocPtr); ok && blp != nil {
 					np := *blp
-					np.Path = append(append([]pathStep{}, blp.Path...), pathStep{Field: path[0]})
+					np.Path = append(append([]pathStep{}, blp.Path...), steps...)
 					lp = &np
 				} else {
-					lp = &LocPtr{Kind: pkHeap, Base: bv.T[0], BaseType: pt.Elem(), Path: []pathStep{{Field: path[0]}}}
+					lp = &LocPtr{Kind: pkHeap, Base: cur.T[0], BaseType: curT, Path: steps}
 				}
 				return lp, ft, nil
 			}
